@@ -5,11 +5,11 @@ package main
 // recursion cycle contains a consuming call.
 
 import (
-	"os"
 	"fmt"
 	"go/constant"
 	"go/token"
 	"go/types"
+	"os"
 	"sort"
 	"strings"
 
@@ -82,6 +82,7 @@ type consumerInfo struct {
 	failPoint func(c *ssa.Call) bool           // the failure (false / nil) edge of this call's result is a pass point (optional)
 	always    map[*ssa.Function]bool           // every path entry->return passes a point
 	onOK      map[*ssa.Function]bool           // every path to a non-nil/true return passes a point
+	onFail    map[*ssa.Function]bool           // every path to a return whose bool verdict may be false passes a point
 	may       map[*ssa.Function]bool           // contains (transitively) a point
 	strict    bool                             // when set, calls to may-functions count as points
 	constMemo map[ssa.CallInstruction]bool
@@ -139,7 +140,7 @@ func (m *Model) newConsumerInfo(base []*ssa.Function, expect *ssa.Function, univ
 
 // newPassInfo computes must-pass-through summaries for arbitrary point predicates.
 func (m *Model) newPassInfo(callPoint func(ssa.CallInstruction) bool, okPoint func(*ssa.Call) bool, universe []*ssa.Function, skip []*ssa.Function) *consumerInfo {
-	ci := &consumerInfo{m: m, callPoint: callPoint, okPoint: okPoint, always: map[*ssa.Function]bool{}, onOK: map[*ssa.Function]bool{}, may: map[*ssa.Function]bool{}}
+	ci := &consumerInfo{m: m, callPoint: callPoint, okPoint: okPoint, always: map[*ssa.Function]bool{}, onOK: map[*ssa.Function]bool{}, onFail: map[*ssa.Function]bool{}, may: map[*ssa.Function]bool{}}
 	skipSet := map[*ssa.Function]bool{}
 	for _, f := range skip {
 		if f != nil {
@@ -189,9 +190,35 @@ func (m *Model) newPassInfo(callPoint func(ssa.CallInstruction) bool, okPoint fu
 				ci.onOK[fn] = true
 				changed = true
 			}
+			if !ci.onFail[fn] && verdictIndex(fn) >= 0 && !ci.pathAvoiding(fn, fn.Blocks[0], 0, ci.failureReturn, nil) {
+				ci.onFail[fn] = true
+				changed = true
+			}
 		}
 	}
 	return ci
+}
+
+// failureReturn: a return whose bool verdict (the last bool of several results) may be false: the constant false, or a
+// value that is not known — except the forwarded verdict of a callee that passes a point whenever it reports false.
+func (ci *consumerInfo) failureReturn(b *ssa.BasicBlock) bool {
+	r, ok := b.Instrs[len(b.Instrs)-1].(*ssa.Return)
+	if !ok {
+		return false
+	}
+	vi := verdictIndex(b.Parent())
+	if vi < 0 || vi >= len(r.Results) {
+		return false
+	}
+	switch v := r.Results[vi].(type) {
+	case *ssa.Const:
+		return v.Value != nil && v.Value.Kind() == constant.Bool && !constant.BoolVal(v.Value)
+	case *ssa.Extract:
+		if call, isCall := v.Tuple.(*ssa.Call); isCall && ci.allCallees(call, func(f *ssa.Function) bool { return ci.onFail[f] }) {
+			return false
+		}
+	}
+	return true
 }
 
 // successReturn: a successful return that does not merely forward the result
@@ -353,6 +380,9 @@ func (ci *consumerInfo) edgeConsumes(pred, succ *ssa.BasicBlock) bool {
 			}
 			if f.Holds && ci.allCallees(vc, func(fn *ssa.Function) bool { return ci.onOK[fn] }) {
 				return true
+			}
+			if !f.Holds && ci.allCallees(vc, func(fn *ssa.Function) bool { return ci.onFail[fn] }) {
+				return true // `tok, ok := scan(); if !ok { again }`: the callee has consumed whenever it says "not yet"
 			}
 			continue
 		}
@@ -914,8 +944,10 @@ func (pc *progressCtx) lexerLoops() {
 			for _, l := range li.latch {
 				latch := l
 				if pc.lexCI.pathAvoiding(fn, li.header, 0, func(b *ssa.BasicBlock) bool { return b == latch }, li.body) {
-					// the latch block itself may consume
-					if !pc.lexCI.blockConsumes(latch, 0) {
+					// the latch block itself may consume, or the edge back to the header may be one that is only taken
+					// after consumption (`tok, ok := scan(); if ok { return }` with a scan that has consumed whenever it
+					// says "not yet")
+					if !pc.lexCI.blockConsumes(latch, 0) && !pc.lexCI.edgeConsumes(latch, li.header) {
 						noProgress = true
 					}
 				}
@@ -1077,6 +1109,17 @@ func (pc *progressCtx) lexEvalFiltered(c int64, known func(ssa.Instruction) bool
 			}
 		case *ssa.Convert:
 			return ev(x.X)
+		case *ssa.Extract:
+			// the verdict of a lexer method (`tok, ok := l.scanToken()`) at the end of the input: the method is
+			// evaluated on a lexer whose current character is 0 (readChar keeps it there), for every setting of the
+			// lexer's boolean mode flags; the verdict is known when all settings agree
+			if call, isCall := x.Tuple.(*ssa.Call); isCall && c == 0 && known(call) {
+				if sc := call.Call.StaticCallee(); sc != nil && sc.Blocks != nil && verdictIndex(sc) == x.Index && sc.Signature.Recv() != nil && strings.HasSuffix(derefTypeString(sc.Signature.Recv().Type()), "lexer.Lexer") {
+					if r, ok := pc.lexVerdictAtEnd(sc, x.Index); ok {
+						return constant.MakeBool(r), true
+					}
+				}
+			}
 		case *ssa.BinOp:
 			l, ok1 := ev(x.X)
 			r, ok2 := ev(x.Y)
@@ -1140,6 +1183,59 @@ func (pc *progressCtx) lexEvalFiltered(c int64, known func(ssa.Instruction) bool
 		}
 		return true, constant.BoolVal(r)
 	}
+}
+
+// lexVerdictAtEnd: the bool result #idx of the lexer method fn when the current character is 0, evaluated for every
+// setting of the lexer's boolean fields (readChar is a no-op there: the character stays 0). Known when all agree.
+func (pc *progressCtx) lexVerdictAtEnd(fn *ssa.Function, idx int) (bool, bool) {
+	m := pc.m
+	lexT := m.namedType("lexer", "Lexer")
+	rc := m.Method("lexer", "Lexer", "readChar")
+	if lexT == nil || rc == nil || len(fn.Params) != 1 {
+		return false, false
+	}
+	st := lexT.Underlying().(*types.Struct)
+	fChar := -1
+	var boolFields []int
+	for i := 0; i < st.NumFields(); i++ {
+		if canonFieldName(lexT, i, st.Field(i).Name()) == "char" {
+			fChar = i
+		}
+		if isBoolT(st.Field(i).Type()) {
+			boolFields = append(boolFields, i)
+		}
+	}
+	if fChar < 0 || len(boolFields) > 6 {
+		return false, false
+	}
+	var res, have bool
+	for mask := 0; mask < 1<<len(boolFields); mask++ {
+		lx := &iStruct{typ: lexT, fields: map[int]any{fChar: constant.MakeInt64(0)}}
+		for bi, f := range boolFields {
+			lx.fields[f] = constant.MakeBool(mask&(1<<bi) != 0)
+		}
+		ip := &Interp{m: m, useGlobals: true}
+		ip.call = func(c *ssa.Call, args []any) (any, bool) {
+			if c.Call.StaticCallee() == rc {
+				return nil, true
+			}
+			return nil, false
+		}
+		r, ok := ip.Run(fn, []any{lx})
+		tup, isT := r.(iTuple)
+		if !ok || !isT || idx >= len(tup) || ip.stuck != "" {
+			return false, false
+		}
+		rcv, isC := tup[idx].(constant.Value)
+		if !isC || rcv.Kind() != constant.Bool {
+			return false, false
+		}
+		if have && constant.BoolVal(rcv) != res {
+			return false, false
+		}
+		res, have = constant.BoolVal(rcv), true
+	}
+	return res, have
 }
 
 func (pc *progressCtx) parserLoops() {
